@@ -22,6 +22,10 @@ def run(tier, seed):
              (G.g_islands('C12'), None, G.replay_g_islands)]
     from contracts import fn_tds
     items.append((fn_tds.do_switch('C12'), None, fn_tds.replay_do_switch))
+    # the matrix side of islanding: diagonal patch of gy for islanded buses in both accumulation modes (contracts shared with C03 / C16)
+    from contracts import C03_assembly as A3
+    items += [(A3.j_islands('C12'), None, A3.replay_j_islands), (A3.j_islands_rebuild('C12'), None, A3.replay_j_islands),
+              (A3.system_j_update('C12'), None, A3.replay_system_j_update)]
     run_contracts(pack, items)
     bounded(pack, tier)
     from contracts import bounded_islands_real as BIR
